@@ -1460,6 +1460,9 @@ class GeoboxTiles:
             # densify: straight edges are curves in the other projection
             poly = poly.to_crs(target_crs, resolution="auto", check_and_fix=True)
 
+        if poly.is_empty:
+            return  # bounds of an empty geometry are NaN
+
         yy, xx = self.range_from_bbox(poly.boundingbox)
         for idx in itertools.product(yy, xx):
             gbox = self[idx]
